@@ -278,6 +278,20 @@ def run(ctx):
             outer_reads = [b_ for b_ in reads if not (claim and h.dominates(claim[0].block, b_))]
             wit = h.uncrossed_path(outer_reads, [gets[0].block], blocks=gp_blocks)
             r4.check(wit is None, "get_pool-between-read-and-checkout", "every path from reading a client message to the checkout passes Client::get_pool", "a checkout can happen with a pool resolved before the message was read (stale after reload)", "", wit and h.describe_path(wit))
+            # ... and before the message is looked at at all: the routing commands, the parser, the plugins and the pause gate are those of the configuration
+            # in force when the message arrives, not of the one the client's previous transaction ran under (D61)
+            uses = [c.block for c in h.calls("pgcat::client::Client::handle_custom_protocol", "pgcat::query_router::QueryRouter::parse", "pgcat::query_router::QueryRouter::execute_plugins",
+                                             "pgcat::query_router::QueryRouter::infer", "pgcat::query_router::QueryRouter::infer_for_batch", "pgcat::query_router::QueryRouter::infer_shard_from_bind",
+                                             "pgcat::pool::ConnectionPool::wait_paused") if not (claim and h.dominates(claim[0].block, c.block))]
+            wit = h.uncrossed_path(outer_reads, uses, blocks=gp_blocks)
+            r4.check(bool(uses) and wit is None, "get_pool-before-the-message-is-used", "between reading a client message and the first use of it (commands, parser, plugins, pause gate: %d sites) the pool is re-resolved" % len(uses),
+                     "a message read in the idle loop is handled by handle_custom_protocol / parsed / routed / passed through the pause gate before the pool is re-resolved: after a RELOAD the first message is "
+                     "treated with the previous configuration (e.g. a sharding key hashed for the old shard count selects a shard of the new pool)", "", wit and h.describe_path(wit))
+            # the client can be held at the pause gate for any length of time: a reload during that wait must still be in effect for the transaction that starts after RESUME
+            gates = [c.block for c in h.calls("pgcat::pool::ConnectionPool::wait_paused") if not (claim and h.dominates(claim[0].block, c.block))]
+            wit = h.uncrossed_path(gates, [gets[0].block], blocks=gp_blocks)
+            r4.check(bool(gates) and wit is None, "get_pool-after-the-pause-gate", "between the pause gate (where a client can wait across a RELOAD) and the checkout the pool is re-resolved",
+                     "the checkout follows wait_paused() without Client::get_pool in between: a transaction held by PAUSE across a RELOAD starts on the pool of the previous configuration", "", wit and h.describe_path(wit))
             wit = h.uncrossed_path([outer], [gets[0].block], blocks=gp_blocks)
             r4.check(wit is None, "get_pool-every-iteration", "every iteration of the idle loop that checks out resolves the pool again", "an idle-loop iteration can reach the checkout without get_pool")
             # the receiver of ConnectionPool::get is the local assigned from that get_pool
